@@ -16,3 +16,9 @@ CHECKS["C03"] = (
     "Held on the executions observed: thousands of (client settings, server settings, credential flavour) pairs drawn from the lattice of restrictions; completed handshakes are compared field by field (secrets, exporter output, flags, ALPN, SNI, limits, chains) and every negotiated parameter is checked against both settings by an oracle that reads the IANA suite name and wire code points; failed handshakes must be explained by a fatal alert. Sampling, not exhaustive.",
     "Trusts the IANA-name parser and wire walkers in vt/; one-sided completion in TLS 1.3 is recorded, not judged; optional back ends (ML-KEM, ML-DSA, TACK) absent.",
     "DESIGN.md section 3, C03")
+CHECKS["C04"] = (
+    "exploration",
+    "runtime monitoring: deterministic replay under a single-edit MITM with two-endpoint view comparison, baseline comparison, wire-order (sentinel) and alert (SCSV) monitors",
+    "Held on the executions observed: for every scenario (version x key exchange, HRR, PSK, resumption, client auth) the honest flights are recorded and replayed with one in-flight edit each (byte position x mask over plaintext flights incl. record headers - every byte in the thorough tier -, record drop/duplicate/swap/insert, structured ClientHello/ServerHello/HRR rewrites); whenever both endpoints complete their views must be identical and equal to the baseline; sentinel and FALLBACK_SCSV have their own wire-order / alert clauses.",
+    "Replays rely on the harness DRBG and virtual clock making runs bit-identical (self-checked per scenario); a removed second line of defence still covered by Finished is invisible to the outcome clauses.",
+    "DESIGN.md section 3, C04")
